@@ -19,11 +19,13 @@ pub struct FaultPlan {
     pub calls: AtomicI64,
     pub fail_at: AtomicI64,
     pub paused: std::sync::atomic::AtomicBool,
+    /// when > 0 every optimize call sleeps this many microseconds (widens the window of an in-flight merge)
+    pub slow_us: AtomicU64,
     pub log: std::sync::Mutex<Vec<&'static str>>,
 }
 impl FaultPlan {
     pub fn new() -> Arc<FaultPlan> {
-        Arc::new(FaultPlan { calls: AtomicI64::new(0), fail_at: AtomicI64::new(-1), paused: Default::default(), log: Default::default() })
+        Arc::new(FaultPlan { calls: AtomicI64::new(0), fail_at: AtomicI64::new(-1), paused: Default::default(), slow_us: AtomicU64::new(0), log: Default::default() })
     }
     pub fn arm(&self, k: i64) {
         self.calls.store(0, Ordering::SeqCst);
@@ -46,6 +48,8 @@ impl FaultPlan {
 
 /// value that makes a callback fail deterministically (data-driven faults, used where a model must agree)
 pub const POISON: i64 = 666;
+/// observation quality that makes optimize fail only when it runs as part of a merge
+pub const POISON_MERGE: i64 = 667;
 
 #[derive(Clone, Debug)]
 pub struct WAttrs {
@@ -187,10 +191,11 @@ impl ObservationMetric<WAttrs, WObs> for WMetric {
             (Some(x), Some(y)) => Some(similari::distance::euclidean(x, y) + self.state as f32 * 1000.0),
             _ => None,
         };
-        if am.is_none() && fd.is_none() {
-            None
-        } else {
-            Some((am, fd))
+        // "no value for this pair" is an optimisation for clearly different observations; a pair without anything
+        // comparable still yields a value, namely (None, None)
+        match am {
+            Some(d) if d > 6.0 => None,
+            _ => Some((am, fd)),
         }
     }
     fn optimize(
@@ -200,10 +205,14 @@ impl ObservationMetric<WAttrs, WObs> for WMetric {
         attrs: &mut WAttrs,
         observations: &mut Vec<Observation<WObs>>,
         _prev_length: usize,
-        _is_merge: bool,
+        is_merge: bool,
     ) -> Result<()> {
+        let slow = self.plan.slow_us.load(Ordering::SeqCst);
+        if slow > 0 {
+            std::thread::sleep(std::time::Duration::from_micros(slow));
+        }
         // mutate everything first so that a missing rollback is observable, then (maybe) fail
-        let poisoned = observations.iter().any(|o| o.attr().as_ref().map(|a| a.0 == POISON as f32).unwrap_or(false));
+        let poisoned = observations.iter().any(|o| o.attr().as_ref().map(|a| a.0 == POISON as f32 || (is_merge && a.0 == POISON_MERGE as f32)).unwrap_or(false));
         observations.sort_by(|a, b| {
             let qa = a.attr().as_ref().map(|x| x.0).unwrap_or(-1.0);
             let qb = b.attr().as_ref().map(|x| x.0).unwrap_or(-1.0);
